@@ -210,6 +210,7 @@ fn do_cut(lib: &Lib, rep: &mut Report, img: &Image, exp: &logmc::logsub::Expecte
         rep.nontrivial.insert(st);
     }
     rep.outcomes.insert(stable_hash(&res.outcome));
+    rep.count(&format!("outcome {}", res.outcome), 1);
     rep.count(&format!("reads_whose_largest_allocation_is_{}", alloc_bucket(res.max_alloc)), 1);
     rep.count(if res.clean { "cuts_ending_cleanly" } else { "cuts_ending_in_error" }, 1);
     if res.max_alloc > (8 << 20) {
@@ -251,6 +252,7 @@ fn do_tfpf(
             rep.nontrivial.insert(st);
         }
         rep.outcomes.insert(stable_hash(&res.outcome));
+        rep.count(&format!("outcome {}|{}", res.outcome, img.size_class()), 1);
         rep.count("tfpf_calls", 1);
         if res.outcome.contains("|some") {
             rep.count("tfpf_named_an_offset", 1);
@@ -553,6 +555,10 @@ fn main() {
     ];
     total.notes.insert("images_built".into(), json!(images.len()));
     total.finish(&args, "seq_log");
+    if total.evaluations > 0 && total.outcomes.len() <= 1 {
+        eprintln!("machinery: {} cases gave a single distinct outcome; the harness is vacuous", total.evaluations);
+        std::process::exit(2);
+    }
 }
 
 /////////////////////////////////////////////// replay //////////////////////////////////////////////
